@@ -2,7 +2,7 @@
    Only property theorems, each closed by quoting lemmas proved elsewhere, and Print Assumptions.
    Generated from Properties/bodies/C10.v.in by mkprop.py (shared preamble: hdr.txt, sec.txt). *)
 From Coq Require Import Arith NArith Bool List Lia.
-Require Import Canon SemTk CountTk TableProto BddBase BddIte BddCR BddSat BddCof BddCof2 BddCtor BddEval BddPaths BddPathsCount BddReach BddExport BddDot BddMinimal BddTerm BddTerm2 Glue Machine Reachable OpSpecs FuelMono FuelMono2.
+Require Import Canon SemTk CountTk TableProto BddBase BddIte BddCR BddSat BddCof BddCof2 BddCtor BddEval BddPaths BddPathsCount BddReach BddExport BddDot BddMinimal BddTerm BddTerm2 Glue Machine Reachable OpSpecs FuelMono FuelMono2 SpecCor.
 Import ListNotations.
 Local Open Scope N_scope.
 
@@ -63,6 +63,18 @@ Section C10.
     exists bound, forall fuel, (bound <= fuel)%nat -> mstep fuel mr (HConstrain f g) = None ->
       exists s', sext (store mr) s' /\ Inv s' /\ storage_full node (tbl s').
   Proof. exact (constrain_step_fuel_bound nhash khash bmask cmask0 smask0 capacity cap_ok mr f g rf rg). Qed.
+  (* the named special cases, on the specification: constrain(f,1) = f, constrain(f,f) = 1, constrain(f, NOT f) = 0, and
+     constrain by a cube (a conjunction of literals over distinct listed variables) is the plain cofactor *)
+  Theorem C10_true_care_set vs (F : bfun) x : ext F -> NoDup vs -> constrain_spec vs F (fun _ => true) x = F x.
+  Proof. exact (constrain_true vs F x). Qed.
+  Theorem C10_self vs (F : bfun) x : ext F -> NoDup vs -> unsat vs F x = false -> constrain_spec vs F F x = true.
+  Proof. exact (constrain_self vs F x). Qed.
+  Theorem C10_negated_self vs (F : bfun) x : ext F -> NoDup vs -> unsat vs (fun a => negb (F a)) x = false ->
+    constrain_spec vs F (fun a => negb (F a)) x = false.
+  Proof. exact (constrain_neg_self vs F x). Qed.
+  Theorem C10_cube_is_cofactor vs (F : bfun) lits x : ext F -> NoDup vs -> NoDup (map fst lits) ->
+    (forall v, In v (map fst lits) -> In v vs) -> constrain_spec vs F (cubef lits) x = F (override x lits).
+  Proof. exact (constrain_cube vs F lits x). Qed.
 End C10.
 
 Print Assumptions C10_constrain.
@@ -74,3 +86,7 @@ Print Assumptions C10_false_care_set.
 Print Assumptions C10_distributes.
 Print Assumptions C10_commutes_with_negation.
 Print Assumptions C10_constrain_fuel_bound.
+Print Assumptions C10_true_care_set.
+Print Assumptions C10_self.
+Print Assumptions C10_negated_self.
+Print Assumptions C10_cube_is_cofactor.
